@@ -18,7 +18,7 @@ pub const FLOORS: &[&str] = &[
     "origin:default", "origin:other", "origin:ge8000", "image_straddles_8000", "break_or_orig_interleaved",
     "assembly_after_memory_was_modified", "label_like_register_with_digits", "break_table_row", "break_table_row_truncated",
     "break_table_row_multibyte", "break_table_row_without_statement", "image_crosses_fe00", "label_shaped_like_number_or_register",
-    "eval_of_a_line_with_its_label_in_front", "stmt:continued_on_the_next_line",
+    "eval_of_a_line_with_its_label_in_front", "stmt:continued_on_the_next_line", "first_statement_at_byte_zero_without_operands",
 ];
 
 pub fn run(cfg: &Cfg, col: &mut Collector) {
@@ -63,6 +63,22 @@ fn one_case(seed: u64, i: u64) -> CaseOut {
     if origin.is_none() {
         p.items.retain(|it| !matches!(it, Item::Orig(_)));
     }
+    // the very first byte of the file starts a statement without operands (no `.orig`, label, comment or
+    // blank in front): its text is as much its own as anybody's
+    let starts_at_byte_zero = i % 29 == 11;
+    if starts_at_byte_zero {
+        p.items.retain(|it| !matches!(it, Item::Orig(_)));
+        let first = match (i / 29) % 6 {
+            0 => Stmt::Alias(0x25),
+            1 => Stmt::Ret,
+            2 => Stmt::Alias(0x22),
+            3 => Stmt::Fill(7),
+            4 => Stmt::Stringz("ab".into()),
+            _ => Stmt::Blkw(3),
+        };
+        p.items.insert(0, Item::Stmt { label: None, stmt: first });
+        out.class("first_statement_at_byte_zero_without_operands");
+    }
     // a label that looks like a register followed by more digits is an ordinary label, for the
     // assembler and for the debugger's location grammar alike (registers are exactly r0..r7)
     if rng.chance(1, 3) {
@@ -89,9 +105,13 @@ fn one_case(seed: u64, i: u64) -> CaseOut {
     if img.origin() as usize + img.words.len() > 0xFE00 {
         out.class("image_crosses_fe00");
     }
-    let lay = if rng.chance(1, 4) { Layout::canonical() } else { Layout::random(&mut rng) };
+    let lay = if rng.chance(1, 4) || starts_at_byte_zero { Layout::canonical() } else { Layout::random(&mut rng) };
     let rendered = render(&p, &lay, &mut rng);
     let text = &rendered.text;
+    // a byte-order mark in front (some editors write one): if the assembler takes the file at all, every
+    // label and statement text is what it is without the mark
+    let with_bom = i % 31 == 17;
+    let session_text = if with_bom { format!("{}{}", '\u{feff}', text) } else { text.clone() };
     let orig = img.origin();
     let n = img.words.len() as i32;
 
@@ -180,13 +200,22 @@ fn one_case(seed: u64, i: u64) -> CaseOut {
     }
     lines.push("exit".into());
     let script = lines.join("\n");
-    let sess = match run_session(text, stack, &script, &[], 10_000, false) {
+    let sess = match run_session(&session_text, stack, &script, &[], 10_000, false) {
         Ok(s) => s,
+        Err(_) if with_bom => {
+            // refused with the mark in front: nothing to look at (whether it should be is C04's and C07's business)
+            out.class("source_with_byte_order_mark_refused");
+            out.evals = 0;
+            return out;
+        }
         Err(o) => {
             out.inconclusive = Some(format!("not assembled ({})", o.class()));
             return out;
         }
     };
+    if with_bom {
+        out.class("source_with_byte_order_mark_assembled");
+    }
     let detail = |line: usize, note: String| {
         J::obj(vec![
             ("source", J::s(text)),
